@@ -111,10 +111,10 @@ Definition pl_header_choice (version : string) (argv : list string) : option (op
   | _ => None
   end.
 
-Definition pl_render_env (h : option (option Dimacs.header)) (r : pl_fres) : pipeline_result :=
+Definition pl_render_env (opb : bool) (h : option (option Dimacs.header)) (r : pl_fres) : pipeline_result :=
   match r with
   | FrOk n F => match h with
-                | Some hh => POut (print_dimacs hh None n F)
+                | Some hh => POut (pl_write opb hh n F)
                 | None => POutside
                 end
   | FrErr => PCliError
@@ -124,6 +124,6 @@ Definition pl_render_env (h : option (option Dimacs.header)) (r : pl_fres) : pip
 
 (* the program with and without -q; [version] is info['version'] of the installation *)
 Definition cnfgen_main_env (version : string) (argv : list string) : pipeline_result :=
-  pl_render_env (pl_header_choice version argv) (pl_formula argv).
+  pl_render_env (pl_opb_of argv) (pl_header_choice version argv) (pl_formula argv).
 Definition cnfgen_main_env_fast (version : string) (argv : list string) : pipeline_result :=
-  pl_render_env (pl_header_choice version argv) (pl_formula_fast argv).
+  pl_render_env (pl_opb_of argv) (pl_header_choice version argv) (pl_formula_fast argv).
